@@ -1,11 +1,419 @@
-/- Hand-written executable model (tie B): CovFn.  Core Lean only — no Mathlib import in this file. -/
+/- Hand-written executable model (tie B): CovFn — the function layer of `CovModel`:
+   * the derivation of `variogram / covariance / correlation / cor` from whichever of them a subclass
+     defines (`covmodel/tools.py::_init_subclass`), with `var`, `len_scale`, `nugget`, `rescale`;
+   * the `*_nugget`, `*_axis`, `*_spatial`, `*_yadrenko` variants (`covmodel/base.py:259-317`);
+   * the elementary closed forms of the shipped `cor` methods (`covmodel/models.py`,
+     `covmodel/tpl_models.py`) and the elementary slices of the special-function families;
+   * integral scales (closed forms of `calc_integral_scale`, the value of `∫₀^∞ cor`) and the
+     `integral_scale` setter.
+   Core Lean only — no Mathlib import in this file.  The definitions follow the code statement by
+   statement (operation order included) so that the `Float` run agrees with numpy to rounding. -/
 import GSV.Proto
+import GSV.Model.Geo
 open Lean GSV GSV.Proto GSV.Transc
 namespace GSV.Model.CovFn
+
+variable {α : Type} [Arith α] [Transc α] [DecidableLT α] [DecidableLE α]
+
+/-! ### parameters -/
+
+/-- the four scalar parameters every function of the model reads -/
+structure Par (α : Type) where
+  var : α
+  lenScale : α
+  nugget : α
+  rescale : α
+
+/-- `CovModel.len_rescaled = len_scale / rescale` -/
+def lenRescaled (p : Par α) : α := p.lenScale / p.rescale
+
+/-- `CovModel.sill = var + nugget` -/
+def sill (p : Par α) : α := p.var + p.nugget
+
+/-- `np.minimum(a, b)` / `np.maximum(a, b)` on non-NaN doubles -/
+def fmin (a b : α) : α := if a < b then a else b
+def fmax (a b : α) : α := if a < b then b else a
+
+/-! ### `_init_subclass`: the installed defaults -/
+
+/-- default `variogram(r) = var - covariance(r) + nugget` -/
+def dVariogram (p : Par α) (covariance : α → α) (r : α) : α := p.var - covariance r + p.nugget
+
+/-- default `covariance(r) = var * correlation(r)` -/
+def dCovariance (p : Par α) (correlation : α → α) (r : α) : α := p.var * correlation r
+
+/-- default `correlation(r) = 1.0 - (variogram(r) - nugget) / var` -/
+def dCorrelation (p : Par α) (variogram : α → α) (r : α) : α :=
+  ((1:Nat):α) - (variogram r - p.nugget) / p.var
+
+/-- `correlation_from_cor(r) = cor(|r| / len_rescaled)` -/
+def correlationFromCor (p : Par α) (cor : α → α) (r : α) : α := cor (fabs r / lenRescaled p)
+
+/-- `cor_from_correlation(h) = correlation(|h| * len_rescaled)` -/
+def corFromCorrelation (p : Par α) (correlation : α → α) (h : α) : α :=
+  correlation (fabs h * lenRescaled p)
+
+/-- the four functions a `CovModel` subclass ends up with -/
+structure Fns (α : Type) where
+  cor : α → α
+  correlation : α → α
+  covariance : α → α
+  variogram : α → α
+
+/-- subclass defines `cor` only -/
+def fromCor (p : Par α) (cor : α → α) : Fns α :=
+  let correlation := correlationFromCor p cor
+  let covariance := dCovariance p correlation
+  { cor := cor, correlation := correlation, covariance := covariance,
+    variogram := dVariogram p covariance }
+
+/-- subclass defines `correlation` only -/
+def fromCorrelation (p : Par α) (correlation : α → α) : Fns α :=
+  let covariance := dCovariance p correlation
+  { cor := corFromCorrelation p correlation, correlation := correlation, covariance := covariance,
+    variogram := dVariogram p covariance }
+
+/-- subclass defines `covariance` only: `variogram` is the default over it, `correlation` the default
+    over that `variogram` (divides by `var`), `cor` comes from `correlation` -/
+def fromCovariance (p : Par α) (covariance : α → α) : Fns α :=
+  let variogram := dVariogram p covariance
+  let correlation := dCorrelation p variogram
+  { cor := corFromCorrelation p correlation, correlation := correlation, covariance := covariance,
+    variogram := variogram }
+
+/-- subclass defines `variogram` only -/
+def fromVariogram (p : Par α) (variogram : α → α) : Fns α :=
+  let correlation := dCorrelation p variogram
+  let covariance := dCovariance p correlation
+  { cor := corFromCorrelation p correlation, correlation := correlation, covariance := covariance,
+    variogram := variogram }
+
+/-- subclass defines both `cor` and `correlation` (the TPL classes) -/
+def fromCorAndCorrelation (p : Par α) (cor correlation : α → α) : Fns α :=
+  let covariance := dCovariance p correlation
+  { cor := cor, correlation := correlation, covariance := covariance,
+    variogram := dVariogram p covariance }
+
+/-- which function the (user) subclass supplies -/
+inductive Route where
+  | cor | correlation | covariance | variogram
+  deriving Repr, DecidableEq, Inhabited
+
+/-- the tiny user subclasses of the harness: kernel `K` of the non-dimensional lag, written out as the
+    respective defining function (same operation order as the python classes in `vlib/props/C03.py`) -/
+def userFns (route : Route) (K : α → α) (p : Par α) : Fns α :=
+  match route with
+  | .cor => fromCor p K
+  | .correlation => fromCorrelation p fun r => K (fabs r / lenRescaled p)
+  | .covariance => fromCovariance p fun r => p.var * K (fabs r / lenRescaled p)
+  | .variogram => fromVariogram p fun r => p.var * (((1:Nat):α) - K (fabs r / lenRescaled p)) + p.nugget
+
+/-! ### variants of `base.py` -/
+
+/-- `np.isclose(r, 0)`: `|r - 0| <= atol + rtol * |0|` with the numpy defaults `atol = 1e-8` -/
+def isclose0 (r : α) : Bool := decide (fabs r ≤ (1e-8 : α))
+
+/-- `vario_nugget` -/
+def varioNugget (F : Fns α) (r : α) : α :=
+  if isclose0 (fabs r) then ((0:Nat):α) else F.variogram (fabs r)
+
+/-- `cov_nugget` -/
+def covNugget (p : Par α) (F : Fns α) (r : α) : α :=
+  if isclose0 (fabs r) then sill p else F.covariance (fabs r)
+
+/-- lag handed to the isotropic function by `vario_axis / cov_axis / cor_axis`
+    (`none` = python `IndexError`) -/
+def axisLag (anis : List α) (axis : Nat) (r : α) : Option α :=
+  match axis with
+  | 0 => some r
+  | k + 1 => (anis[k]?).map fun a => fabs r / a
+
+/-- `great_circle_to_chordal(zeta, radius) = (2 radius) * sin(zeta / (2 radius))` -/
+def chordal (radius zeta : α) : α :=
+  let diameter := ((2:Nat):α) * radius
+  diameter * sin (zeta / diameter)
+
+/-- lag of the `*_spatial` variants: `_get_iso_rad` (model of `GSV.Model.Geo`) -/
+def spatialLag (dim : Nat) (angles anis : List α) (x : Nat → α) : α := Geo.isoRad dim angles anis x
+
+/-! ### elementary closed forms of the shipped `cor` methods (argument: non-dimensional lag `h`) -/
+
+/-- Gaussian: `np.exp(-(h**2))` -/
+def gaussianCor (h : α) : α := exp (-(npow h 2))
+/-- Gaussian `default_rescale = sqrt(pi) / 2` -/
+def gaussianRescale : α := sqrt (pi : α) / ((2:Nat):α)
+
+/-- Exponential: `np.exp(-h)` -/
+def exponentialCor (h : α) : α := exp (-h)
+
+/-- Stable: `np.exp(-np.power(h, alpha))` -/
+def stableCor (alpha h : α) : α := exp (-(rpow h alpha))
+
+/-- Rational: `np.power(1 + h**2 / alpha, -alpha)` -/
+def rationalCor (alpha h : α) : α := rpow (((1:Nat):α) + npow h 2 / alpha) (-alpha)
+
+/-- the polynomial of `Cubic.cor` -/
+def cubicPoly (h : α) : α :=
+  ((1:Nat):α) - ((7:Nat):α) * npow h 2 + (8.75:α) * npow h 3 - (3.5:α) * npow h 5 + (0.75:α) * npow h 7
+
+/-- Cubic: `h = np.minimum(np.abs(h), 1.0)` then the polynomial -/
+def cubicCor (h : α) : α := cubicPoly (fmin (fabs h) ((1:Nat):α))
+
+/-- Linear: `np.maximum(1 - np.abs(h), 0.0)` -/
+def linearCor (h : α) : α := fmax (((1:Nat):α) - fabs h) ((0:Nat):α)
+
+/-- the inner expression of `Circular.cor` -/
+def circularInner (h : α) : α :=
+  ((2:Nat):α) / (pi : α) * (acos h - h * sqrt (((1:Nat):α) - npow h 2))
+
+/-- Circular: zero unless `|h| < 1` -/
+def circularCor (h : α) : α :=
+  if fabs h < ((1:Nat):α) then circularInner (fabs h) else ((0:Nat):α)
+
+/-- the polynomial of `Spherical.cor` -/
+def sphericalPoly (h : α) : α := ((1:Nat):α) - (1.5:α) * h + (0.5:α) * npow h 3
+
+/-- Spherical: `h = np.minimum(np.abs(h), 1.0)` then the polynomial -/
+def sphericalCor (h : α) : α := sphericalPoly (fmin (fabs h) ((1:Nat):α))
+
+/-- TPLSimple: `np.maximum(1 - np.abs(h), 0.0) ** nu` -/
+def tplSimpleCor (nu h : α) : α := rpow (fmax (((1:Nat):α) - fabs h) ((0:Nat):α)) nu
+
+/-! ### special-function families on the slices where they are elementary -/
+
+/-- binomial coefficient (Pascal recursion; core Lean has no `Nat.choose`) -/
+def choose : Nat → Nat → Nat
+  | _, 0 => 1
+  | 0, _ + 1 => 0
+  | n + 1, k + 1 => choose n k + choose n (k + 1)
+
+/-- `₂F₁(1/2, -n; 3/2; x) = Σ_{k ≤ n} C(n,k) (-x)^k / (2k+1)` for a natural `n`
+    (the series terminates; `(1/2)_k / (3/2)_k = 1/(2k+1)`, `(-n)_k / k! = (-1)^k C(n,k)`) -/
+def hyp2f1HalfNegNat (n : Nat) (x : α) : α :=
+  forRange 0 (n + 1) ((0:Nat):α) fun k acc =>
+    acc + ((choose n k : Nat) : α) * npow (-x) k / (((2 * k + 1 : Nat)) : α)
+
+/-- SuperSpherical with natural `nu = n`: `1 - h * fac * ₂F₁(1/2, -n; 3/2; h²)` for `h < 1`, else `0`;
+    `fac = 1 / ₂F₁(1/2, -n; 3/2; 1)`.  (No `abs`: the code does not take one.) -/
+def superSphericalNatCor (n : Nat) (h : α) : α :=
+  if h < ((1:Nat):α) then
+    ((1:Nat):α) - h * (((1:Nat):α) / hyp2f1HalfNegNat n ((1:Nat):α)) * hyp2f1HalfNegNat n (npow h 2)
+  else ((0:Nat):α)
+
+/-- SuperSpherical / HyperSpherical with `nu = 1/2`:
+    `₂F₁(1/2, -1/2; 3/2; h²) = (sqrt(1-h²) + asin(h)/h) / 2`, value `π/4` at `1`, hence the circular form
+    written with `acos` (`asin h = π/2 - acos h`) -/
+def superSphericalHalfCor (h : α) : α :=
+  if h < ((1:Nat):α) then circularInner h else ((0:Nat):α)
+
+/-- HyperSpherical: `nu = (dim - 1) / 2`; elementary for `dim = 1, 2, 3` (`none` otherwise) -/
+def hyperSphericalCor (dim : Nat) : Option (α → α) :=
+  match dim with
+  | 1 => some (superSphericalNatCor 0)
+  | 2 => some superSphericalHalfCor
+  | 3 => some (superSphericalNatCor 1)
+  | _ => none
+
+/-- Matern `nu = 1/2`: `exp(-x)`, `x = sqrt(nu) |h|` -/
+def matern12Cor (h : α) : α := exp (-(sqrt (0.5:α) * fabs h))
+/-- Matern `nu = 3/2`: `(1 + x) exp(-x)` -/
+def matern32Cor (h : α) : α :=
+  let x := sqrt (1.5:α) * fabs h
+  (((1:Nat):α) + x) * exp (-x)
+/-- Matern `nu = 5/2`: `(1 + x + x²/3) exp(-x)` -/
+def matern52Cor (h : α) : α :=
+  let x := sqrt (2.5:α) * fabs h
+  (((1:Nat):α) + x + npow x 2 / ((3:Nat):α)) * exp (-x)
+/-- Matern `nu > 20`: the code switches to `np.exp(-((h / 2.0) ** 2))` -/
+def maternLimitCor (h : α) : α := exp (-(npow (fabs h / ((2:Nat):α)) 2))
+
+/-- JBessel `nu = 1/2`: `Γ(3/2) J_{1/2}(h) / (h/2)^{1/2} = sin h / h`; `1` where `isclose(h, 0)` -/
+def jbessel12Cor (h : α) : α := if isclose0 h then ((1:Nat):α) else sin h / h
+/-- JBessel `nu = 3/2`: `3 (sin h - h cos h) / h³` -/
+def jbessel32Cor (h : α) : α :=
+  if isclose0 h then ((1:Nat):α) else ((3:Nat):α) * (sin h - h * cos h) / npow h 3
+
+/-! ### integral scales -/
+
+/-- `∫₀^∞ cor` of the elementary kernels (the theorems of `Props/C03` prove these values) -/
+def gaussianCorIntegral : α := sqrt (pi : α) / ((2:Nat):α)
+def exponentialCorIntegral : α := ((1:Nat):α)
+def linearCorIntegral : α := ((1:Nat):α) / ((2:Nat):α)
+def sphericalCorIntegral : α := ((3:Nat):α) / ((8:Nat):α)
+def cubicCorIntegral : α := ((35:Nat):α) / ((96:Nat):α)
+def tplSimpleCorIntegral (nu : α) : α := ((1:Nat):α) / (nu + ((1:Nat):α))
+def circularCorIntegral : α := ((4:Nat):α) / (((3:Nat):α) * (pi : α))
+def matern12CorIntegral : α := ((1:Nat):α) / sqrt (0.5:α)
+def matern32CorIntegral : α := ((2:Nat):α) / sqrt (1.5:α)
+def matern52CorIntegral : α := ((8:Nat):α) / ((3:Nat):α) / sqrt (2.5:α)
+
+/-- integral scale of the model: `len_rescaled *` that of `cor` -/
+def integralScale (p : Par α) (corIntegral : α) : α := lenRescaled p * corIntegral
+
+/-- `Gaussian.calc_integral_scale = len_rescaled * sqrt(pi) / 2.0` -/
+def gaussianCalcIS (p : Par α) : α := lenRescaled p * sqrt (pi : α) / ((2:Nat):α)
+/-- `Exponential.calc_integral_scale = len_rescaled` -/
+def exponentialCalcIS (p : Par α) : α := lenRescaled p
+/-- `Integral.calc_integral_scale = len_rescaled * nu * sqrt(pi) / (2 nu + 2.0)` -/
+def integralCalcIS (nu : α) (p : Par α) : α :=
+  lenRescaled p * nu * sqrt (pi : α) / (((2:Nat):α) * nu + ((2:Nat):α))
+
+/-- the `integral_scale` setter on an isotropic model: `len_scale := 1`, measure, `len_scale := I / that` -/
+def setIntegralScale (calcIS : Par α → α) (p : Par α) (I : α) : Par α :=
+  let p1 : Par α := { p with lenScale := ((1:Nat):α) }
+  { p with lenScale := I / calcIS p1 }
+
+/-! ### driver -/
+
+/-- kernels addressable from the harness: name, dimension, one float optional argument, one natural -/
+def kernelByName (name : String) (dim n : Nat) (a : Float) : Option (Float → Float) :=
+  match name with
+  | "Gaussian" => some gaussianCor
+  | "Exponential" => some exponentialCor
+  | "Stable" => some (stableCor a)
+  | "Rational" => some (rationalCor a)
+  | "Cubic" => some cubicCor
+  | "Linear" => some linearCor
+  | "Circular" => some circularCor
+  | "Spherical" => some sphericalCor
+  | "TPLSimple" => some (tplSimpleCor a)
+  | "HyperSpherical" => hyperSphericalCor dim
+  | "SuperSphericalNat" => some (superSphericalNatCor n)
+  | "SuperSphericalHalf" => some superSphericalHalfCor
+  | "Matern12" => some matern12Cor
+  | "Matern32" => some matern32Cor
+  | "Matern52" => some matern52Cor
+  | "MaternLimit" => some maternLimitCor
+  | "JBessel12" => some jbessel12Cor
+  | "JBessel32" => some jbessel32Cor
+  | _ => none
+
+def corIntegralByName (name : String) (dim : Nat) (a : Float) : Option Float :=
+  match name with
+  | "Gaussian" => some gaussianCorIntegral
+  | "Exponential" => some exponentialCorIntegral
+  | "Linear" => some linearCorIntegral
+  | "Spherical" => some sphericalCorIntegral
+  | "Cubic" => some cubicCorIntegral
+  | "TPLSimple" => some (tplSimpleCorIntegral a)
+  | "Circular" => some circularCorIntegral
+  | "Matern12" => some matern12CorIntegral
+  | "Matern32" => some matern32CorIntegral
+  | "Matern52" => some matern52CorIntegral
+  | "HyperSpherical" =>
+    match dim with
+    | 1 => some linearCorIntegral
+    | 2 => some circularCorIntegral
+    | 3 => some sphericalCorIntegral
+    | _ => none
+  | _ => none
+
+def routeByName (s : String) : Option Route :=
+  match s with
+  | "cor" => some .cor
+  | "correlation" => some .correlation
+  | "covariance" => some .covariance
+  | "variogram" => some .variogram
+  | _ => none
+
+def getPar (j : Json) : Except String (Par Float) := do
+  return { var := ← getFloat j "var", lenScale := ← getFloat j "len_scale",
+           nugget := ← getFloat j "nugget", rescale := ← getFloat j "rescale" }
+
+/-- evaluate function `fn` of the family `F` on one lag (variants included) -/
+def evalFn (fn : String) (p : Par Float) (F : Fns Float) (anis : List Float) (axis : Nat)
+    (radius : Float) (r : Float) : Except String Float :=
+  let ax (f : Float → Float) : Except String Float :=
+    match axisLag anis axis r with
+    | some l => .ok (f l)
+    | none => .error "IndexError"
+  match fn with
+  | "cor" => .ok (F.cor r)
+  | "correlation" => .ok (F.correlation r)
+  | "covariance" => .ok (F.covariance r)
+  | "variogram" => .ok (F.variogram r)
+  | "vario_nugget" => .ok (varioNugget F r)
+  | "cov_nugget" => .ok (covNugget p F r)
+  | "vario_axis" => ax F.variogram
+  | "cov_axis" => ax F.covariance
+  | "cor_axis" => ax F.correlation
+  | "vario_yadrenko" => .ok (F.variogram (chordal radius r))
+  | "cov_yadrenko" => .ok (F.covariance (chordal radius r))
+  | "cor_yadrenko" => .ok (F.correlation (chordal radius r))
+  | _ => .error s!"unknown fn {fn}"
+
+def optNat (j : Json) (k : String) (d : Nat) : Nat :=
+  match getNat j k with | .ok v => v | .error _ => d
+def optFloat (j : Json) (k : String) (d : Float) : Float :=
+  match getFloat j k with | .ok v => v | .error _ => d
+def optFloats (j : Json) (k : String) : List Float :=
+  match getFloats j k with | .ok v => v.toList | .error _ => []
 
 /-- line-protocol operations of this model; `none` = not one of mine -/
 def ops (op : String) (j : Json) : Option (Except String Json) :=
   match op with
+  /- closed-form kernel + route → one of the functions / variants on a list of lags -/
+  | "covfn_eval" => some (do
+      let name ← getStr j "kernel"
+      let dim := optNat j "dim" 1
+      let some K := kernelByName name dim (optNat j "n" 0) (optFloat j "a" 1.0) | throw s!"no kernel {name}"
+      let some route := routeByName (← getStr j "route") | throw "route"
+      let p ← getPar j
+      let F := userFns route K p
+      let fn ← getStr j "fn"
+      let lags ← getFloats j "lags"
+      let anis := optFloats j "anis"
+      let out ← lags.toList.mapM (evalFn fn p F anis (optNat j "axis" 0) (optFloat j "radius" 1.0))
+      return fl out)
+  /- the class's own `cor` (or `correlation`) is taken as given samples: derive the others by the
+     combinators.  `base` = "cor" (values are cor(|r|/len_rescaled)) or "correlation". -/
+  | "covfn_derive" => some (do
+      let p ← getPar j
+      let vals ← getFloats j "vals"
+      let out := vals.toList.map fun c =>
+        let F := fromCorAndCorrelation p (fun _ => c) (fun _ => c)
+        [F.correlation 0, F.covariance 0, F.variogram 0,
+         covNugget p F 1, varioNugget F 1, covNugget p F 0, varioNugget F 0]
+      return fl2 out)
+  /- spatial variants: lag of `_get_iso_rad` through the Geo model, then the closed form -/
+  | "covfn_spatial" => some (do
+      let name ← getStr j "kernel"
+      let dim ← getNat j "dim"
+      let some K := kernelByName name dim (optNat j "n" 0) (optFloat j "a" 1.0) | throw s!"no kernel {name}"
+      let p ← getPar j
+      let F := fromCor p K
+      let angles := optFloats j "angles"
+      let anis := optFloats j "anis"
+      let pos ← getFloats j "pos"       -- row-major (npts, dim)
+      let npts := pos.size / dim
+      let out := (List.range npts).map fun i =>
+        let l := spatialLag dim angles anis (fun k => pos[i * dim + k]!)
+        [l, F.variogram l, F.covariance l, F.correlation l]
+      return fl2 out)
+  /- integral scale of the closed-form kernels, closed forms of calc_integral_scale, setter -/
+  | "covfn_intscale" => some (do
+      let name ← getStr j "kernel"
+      let p ← getPar j
+      let a := optFloat j "a" 1.0
+      let some ci := corIntegralByName name (optNat j "dim" 1) a | throw s!"no integral {name}"
+      let want ← getFloat j "set"
+      let p' := setIntegralScale (fun q => integralScale q ci) p want
+      return fl [integralScale p ci, p'.lenScale, integralScale p' ci])
+  | "covfn_calc_is" => some (do
+      let name ← getStr j "kernel"
+      let p ← getPar j
+      let a := optFloat j "a" 1.0
+      match name with
+      | "Gaussian" => return fl [gaussianCalcIS p]
+      | "Exponential" => return fl [exponentialCalcIS p]
+      | "Integral" => return fl [integralCalcIS a p]
+      | _ => throw s!"no calc_integral_scale model for {name}")
+  | "covfn_default_rescale" => some (do
+      let name ← getStr j "kernel"
+      return fl [if name == "Gaussian" then gaussianRescale else 1.0])
+  | "covfn_isclose0" => some (do
+      let lags ← getFloats j "lags"
+      return Json.arr (lags.map fun r => Json.bool (isclose0 r)))
   | _ => none
 
 end GSV.Model.CovFn
